@@ -70,7 +70,7 @@ let () =
       let bx = ropt_with rbool r in { gs_just = j; gs_pos = p; gs_it = i; gs_un = u; gs_bx = bx } in
     let rgli r = let t = rstr r in let s = ropt_with rgstyle r in { gl_text = t; gl_style = s } in
     let rgitem r = let s = rz r in let e = rz r in let sa = ropt_with rgstyle r in let ls = rlist (rlist rgli) r in
-      { gi_st = s; gi_en = e; gi_style = sa; gi_lines = ls } in
+      { gsi_st = s; gsi_en = e; gsi_style = sa; gsi_lines = ls } in
     let l = rlist (ropt_with rgitem) r in
     let res = write_stl_items_c now md l in
     let flat = List.filter_map (function Some i -> Some (item_flat i) | None -> None) l in
